@@ -196,6 +196,9 @@ pub mod ctc;
 
 pub mod ops;
 
+#[cfg(rten_verif)]
+pub mod verif;
+
 pub use buffer_pool::{BufferPool, ExtractBuffer, PoolRef};
 pub use graph::{Dimension, NodeId, RunError, RunErrorKind, RunOptions};
 pub use model::{
